@@ -428,3 +428,10 @@ for kind in ('sort', 'visual'):
                           "track -> record conversion echoes id/epoch/scene/length/custom id and the LAST boxes; handed-out records hold the whole history",
                           "%d history entries, symbolic ids / epoch / scene / length" % nh,
                           ["similari::trackers::%s::From<Track> for %s" % ('sort' if kind == 'sort' else 'visual_sort', 'record')], replay=_replay_lifetime))
+
+
+# one whole VisualSort predict call from an arbitrary valid tracker state, see props/stepvisual.py
+import stepvisual as _stepv
+MIR += [q for q in _stepv.MIR if q.name in ('step_visual_d1_t1_lite', 'step_visual_d1_t1')]
+EXPLANATION += ' A whole VisualSort::predict_with_scene call is also executed from MIR on a symbolic tracker state (props/stepvisual.py: store model with the real worker loop, real builders / Track::add_observation / merge / VisualMetric::{metric, optimize} / VisualVoting / BestFitVoting / SortVoting code; geometry numbers, feature distances, feature packing and Kalman prediction uninterpreted): the decision expected from the symbolic inputs by the rules of the property is compared with the records.'
+ASSUMPTIONS += ['VisualSort predict step: <= 1 detection x <= 1 stored track in the quick tier (thorough 2x1, 1x2), 1-2 stored observations with / without features, previous voting type any; IoU + Euclidean mode; thresholds, confidences, qualities, IoU values and feature distances from small exact grids (quick: a reduced option grid); own-area thresholds 0 (shares not computed); candidate ids random, assumed distinct; fresh Kalman filter round trip exact; workers run when the caller blocks; HashMap iteration in insertion order']
